@@ -469,7 +469,8 @@ CS101_ASDU_getElementEx(CS101_ASDU self, InformationObject io, int index)
             retVal  = (InformationObject) SinglePointInformation_getFromBuffer((SinglePointInformation) io, self->parameters,
                     self->payload, self->payloadSize, self->parameters->sizeOfIOA + (index * elementSize), true);
 
-            InformationObject_setObjectAddress(retVal, InformationObject_ParseObjectAddress(self->parameters, self->payload, 0) + index);
+            if (retVal)
+                InformationObject_setObjectAddress(retVal, InformationObject_ParseObjectAddress(self->parameters, self->payload, 0) + index);
         }
         else
             retVal  = (InformationObject) SinglePointInformation_getFromBuffer((SinglePointInformation) io, self->parameters,
@@ -485,7 +486,8 @@ CS101_ASDU_getElementEx(CS101_ASDU self, InformationObject io, int index)
             retVal  = (InformationObject) SinglePointWithCP24Time2a_getFromBuffer((SinglePointWithCP24Time2a) io, self->parameters,
                     self->payload, self->payloadSize, self->parameters->sizeOfIOA + (index * elementSize), true);
 
-            InformationObject_setObjectAddress(retVal, InformationObject_ParseObjectAddress(self->parameters, self->payload, 0) + index);
+            if (retVal)
+                InformationObject_setObjectAddress(retVal, InformationObject_ParseObjectAddress(self->parameters, self->payload, 0) + index);
         }
         else
             retVal  = (InformationObject) SinglePointWithCP24Time2a_getFromBuffer((SinglePointWithCP24Time2a) io, self->parameters,
@@ -501,7 +503,8 @@ CS101_ASDU_getElementEx(CS101_ASDU self, InformationObject io, int index)
             retVal  = (InformationObject) DoublePointInformation_getFromBuffer((DoublePointInformation) io, self->parameters,
                     self->payload, self->payloadSize, self->parameters->sizeOfIOA + (index * elementSize), true);
 
-            InformationObject_setObjectAddress(retVal, InformationObject_ParseObjectAddress(self->parameters, self->payload, 0) + index);
+            if (retVal)
+                InformationObject_setObjectAddress(retVal, InformationObject_ParseObjectAddress(self->parameters, self->payload, 0) + index);
         }
         else
             retVal  = (InformationObject) DoublePointInformation_getFromBuffer((DoublePointInformation) io, self->parameters,
@@ -518,7 +521,8 @@ CS101_ASDU_getElementEx(CS101_ASDU self, InformationObject io, int index)
             retVal  = (InformationObject) DoublePointWithCP24Time2a_getFromBuffer((DoublePointWithCP24Time2a) io, self->parameters,
                     self->payload, self->payloadSize, self->parameters->sizeOfIOA + (index * elementSize), true);
 
-            InformationObject_setObjectAddress(retVal, InformationObject_ParseObjectAddress(self->parameters, self->payload, 0) + index);
+            if (retVal)
+                InformationObject_setObjectAddress(retVal, InformationObject_ParseObjectAddress(self->parameters, self->payload, 0) + index);
         }
         else
             retVal  = (InformationObject) DoublePointWithCP24Time2a_getFromBuffer((DoublePointWithCP24Time2a) io, self->parameters,
@@ -534,7 +538,8 @@ CS101_ASDU_getElementEx(CS101_ASDU self, InformationObject io, int index)
             retVal  = (InformationObject) StepPositionInformation_getFromBuffer((StepPositionInformation) io, self->parameters,
                     self->payload, self->payloadSize, self->parameters->sizeOfIOA + (index * elementSize), true);
 
-            InformationObject_setObjectAddress(retVal, InformationObject_ParseObjectAddress(self->parameters, self->payload, 0) + index);
+            if (retVal)
+                InformationObject_setObjectAddress(retVal, InformationObject_ParseObjectAddress(self->parameters, self->payload, 0) + index);
         }
         else
             retVal  = (InformationObject) StepPositionInformation_getFromBuffer((StepPositionInformation) io, self->parameters,
@@ -550,7 +555,8 @@ CS101_ASDU_getElementEx(CS101_ASDU self, InformationObject io, int index)
             retVal  = (InformationObject) StepPositionWithCP24Time2a_getFromBuffer((StepPositionWithCP24Time2a) io, self->parameters,
                     self->payload, self->payloadSize, self->parameters->sizeOfIOA + (index * elementSize), true);
 
-            InformationObject_setObjectAddress(retVal, InformationObject_ParseObjectAddress(self->parameters, self->payload, 0) + index);
+            if (retVal)
+                InformationObject_setObjectAddress(retVal, InformationObject_ParseObjectAddress(self->parameters, self->payload, 0) + index);
         }
         else
             retVal  = (InformationObject) StepPositionWithCP24Time2a_getFromBuffer((StepPositionWithCP24Time2a) io, self->parameters,
@@ -566,7 +572,8 @@ CS101_ASDU_getElementEx(CS101_ASDU self, InformationObject io, int index)
             retVal  = (InformationObject) BitString32_getFromBuffer((BitString32) io, self->parameters,
                     self->payload, self->payloadSize, self->parameters->sizeOfIOA + (index * elementSize), true);
 
-            InformationObject_setObjectAddress(retVal, InformationObject_ParseObjectAddress(self->parameters, self->payload, 0) + index);
+            if (retVal)
+                InformationObject_setObjectAddress(retVal, InformationObject_ParseObjectAddress(self->parameters, self->payload, 0) + index);
         }
         else
             retVal  = (InformationObject) BitString32_getFromBuffer((BitString32) io, self->parameters,
@@ -582,7 +589,8 @@ CS101_ASDU_getElementEx(CS101_ASDU self, InformationObject io, int index)
             retVal  = (InformationObject) Bitstring32WithCP24Time2a_getFromBuffer((Bitstring32WithCP24Time2a) io, self->parameters,
                     self->payload, self->payloadSize, self->parameters->sizeOfIOA + (index * elementSize), true);
 
-            InformationObject_setObjectAddress(retVal, InformationObject_ParseObjectAddress(self->parameters, self->payload, 0) + index);
+            if (retVal)
+                InformationObject_setObjectAddress(retVal, InformationObject_ParseObjectAddress(self->parameters, self->payload, 0) + index);
         }
         else
             retVal  = (InformationObject) Bitstring32WithCP24Time2a_getFromBuffer((Bitstring32WithCP24Time2a) io, self->parameters,
@@ -598,7 +606,8 @@ CS101_ASDU_getElementEx(CS101_ASDU self, InformationObject io, int index)
             retVal  = (InformationObject) MeasuredValueNormalized_getFromBuffer((MeasuredValueNormalized) io, self->parameters,
                     self->payload, self->payloadSize, self->parameters->sizeOfIOA + (index * elementSize), true);
 
-            InformationObject_setObjectAddress(retVal, InformationObject_ParseObjectAddress(self->parameters, self->payload, 0) + index);
+            if (retVal)
+                InformationObject_setObjectAddress(retVal, InformationObject_ParseObjectAddress(self->parameters, self->payload, 0) + index);
         }
         else
             retVal  = (InformationObject) MeasuredValueNormalized_getFromBuffer((MeasuredValueNormalized) io, self->parameters,
@@ -614,7 +623,8 @@ CS101_ASDU_getElementEx(CS101_ASDU self, InformationObject io, int index)
             retVal  = (InformationObject) MeasuredValueNormalizedWithCP24Time2a_getFromBuffer((MeasuredValueNormalizedWithCP24Time2a) io, self->parameters,
                     self->payload, self->payloadSize, self->parameters->sizeOfIOA + (index * elementSize), true);
 
-            InformationObject_setObjectAddress(retVal, InformationObject_ParseObjectAddress(self->parameters, self->payload, 0) + index);
+            if (retVal)
+                InformationObject_setObjectAddress(retVal, InformationObject_ParseObjectAddress(self->parameters, self->payload, 0) + index);
         }
         else
             retVal  = (InformationObject) MeasuredValueNormalizedWithCP24Time2a_getFromBuffer((MeasuredValueNormalizedWithCP24Time2a) io, self->parameters,
@@ -630,7 +640,8 @@ CS101_ASDU_getElementEx(CS101_ASDU self, InformationObject io, int index)
             retVal  = (InformationObject) MeasuredValueScaled_getFromBuffer((MeasuredValueScaled) io, self->parameters,
                     self->payload, self->payloadSize, self->parameters->sizeOfIOA + (index * elementSize), true);
 
-            InformationObject_setObjectAddress(retVal, InformationObject_ParseObjectAddress(self->parameters, self->payload, 0) + index);
+            if (retVal)
+                InformationObject_setObjectAddress(retVal, InformationObject_ParseObjectAddress(self->parameters, self->payload, 0) + index);
         }
         else
             retVal  = (InformationObject) MeasuredValueScaled_getFromBuffer((MeasuredValueScaled) io, self->parameters,
@@ -646,7 +657,8 @@ CS101_ASDU_getElementEx(CS101_ASDU self, InformationObject io, int index)
             retVal  = (InformationObject) MeasuredValueScaledWithCP24Time2a_getFromBuffer((MeasuredValueScaledWithCP24Time2a) io, self->parameters,
                     self->payload, self->payloadSize, self->parameters->sizeOfIOA + (index * elementSize), true);
 
-            InformationObject_setObjectAddress(retVal, InformationObject_ParseObjectAddress(self->parameters, self->payload, 0) + index);
+            if (retVal)
+                InformationObject_setObjectAddress(retVal, InformationObject_ParseObjectAddress(self->parameters, self->payload, 0) + index);
         }
         else
             retVal  = (InformationObject) MeasuredValueScaledWithCP24Time2a_getFromBuffer((MeasuredValueScaledWithCP24Time2a) io, self->parameters,
@@ -663,7 +675,8 @@ CS101_ASDU_getElementEx(CS101_ASDU self, InformationObject io, int index)
             retVal  = (InformationObject) MeasuredValueShort_getFromBuffer((MeasuredValueShort) io, self->parameters,
                     self->payload, self->payloadSize, self->parameters->sizeOfIOA + (index * elementSize), true);
 
-            InformationObject_setObjectAddress(retVal, InformationObject_ParseObjectAddress(self->parameters, self->payload, 0) + index);
+            if (retVal)
+                InformationObject_setObjectAddress(retVal, InformationObject_ParseObjectAddress(self->parameters, self->payload, 0) + index);
         }
         else
             retVal  = (InformationObject) MeasuredValueShort_getFromBuffer((MeasuredValueShort) io, self->parameters,
@@ -680,7 +693,8 @@ CS101_ASDU_getElementEx(CS101_ASDU self, InformationObject io, int index)
             retVal  = (InformationObject) MeasuredValueShortWithCP24Time2a_getFromBuffer((MeasuredValueShortWithCP24Time2a) io, self->parameters,
                     self->payload, self->payloadSize, self->parameters->sizeOfIOA + (index * elementSize), true);
 
-            InformationObject_setObjectAddress(retVal, InformationObject_ParseObjectAddress(self->parameters, self->payload, 0) + index);
+            if (retVal)
+                InformationObject_setObjectAddress(retVal, InformationObject_ParseObjectAddress(self->parameters, self->payload, 0) + index);
         }
         else
             retVal  = (InformationObject) MeasuredValueShortWithCP24Time2a_getFromBuffer((MeasuredValueShortWithCP24Time2a) io, self->parameters,
@@ -696,7 +710,8 @@ CS101_ASDU_getElementEx(CS101_ASDU self, InformationObject io, int index)
             retVal  = (InformationObject) IntegratedTotals_getFromBuffer((IntegratedTotals) io, self->parameters,
                     self->payload, self->payloadSize, self->parameters->sizeOfIOA + (index * elementSize), true);
 
-            InformationObject_setObjectAddress(retVal, InformationObject_ParseObjectAddress(self->parameters, self->payload, 0) + index);
+            if (retVal)
+                InformationObject_setObjectAddress(retVal, InformationObject_ParseObjectAddress(self->parameters, self->payload, 0) + index);
         }
         else
             retVal  = (InformationObject) IntegratedTotals_getFromBuffer((IntegratedTotals) io, self->parameters,
@@ -712,7 +727,8 @@ CS101_ASDU_getElementEx(CS101_ASDU self, InformationObject io, int index)
             retVal  = (InformationObject) IntegratedTotalsWithCP24Time2a_getFromBuffer((IntegratedTotalsWithCP24Time2a) io, self->parameters,
                     self->payload, self->payloadSize, self->parameters->sizeOfIOA + (index * elementSize), true);
 
-            InformationObject_setObjectAddress(retVal, InformationObject_ParseObjectAddress(self->parameters, self->payload, 0) + index);
+            if (retVal)
+                InformationObject_setObjectAddress(retVal, InformationObject_ParseObjectAddress(self->parameters, self->payload, 0) + index);
         }
         else
             retVal  = (InformationObject) IntegratedTotalsWithCP24Time2a_getFromBuffer((IntegratedTotalsWithCP24Time2a) io, self->parameters,
@@ -728,7 +744,8 @@ CS101_ASDU_getElementEx(CS101_ASDU self, InformationObject io, int index)
             retVal  = (InformationObject) EventOfProtectionEquipment_getFromBuffer((EventOfProtectionEquipment) io, self->parameters,
                     self->payload, self->payloadSize, self->parameters->sizeOfIOA + (index * elementSize), true);
 
-            InformationObject_setObjectAddress(retVal, InformationObject_ParseObjectAddress(self->parameters, self->payload, 0) + index);
+            if (retVal)
+                InformationObject_setObjectAddress(retVal, InformationObject_ParseObjectAddress(self->parameters, self->payload, 0) + index);
         }
         else
             retVal  = (InformationObject) EventOfProtectionEquipment_getFromBuffer((EventOfProtectionEquipment) io, self->parameters,
@@ -744,7 +761,8 @@ CS101_ASDU_getElementEx(CS101_ASDU self, InformationObject io, int index)
             retVal  = (InformationObject) PackedStartEventsOfProtectionEquipment_getFromBuffer((PackedStartEventsOfProtectionEquipment) io, self->parameters,
                     self->payload, self->payloadSize, self->parameters->sizeOfIOA + (index * elementSize), true);
 
-            InformationObject_setObjectAddress(retVal, InformationObject_ParseObjectAddress(self->parameters, self->payload, 0) + index);
+            if (retVal)
+                InformationObject_setObjectAddress(retVal, InformationObject_ParseObjectAddress(self->parameters, self->payload, 0) + index);
         }
         else
             retVal  = (InformationObject) PackedStartEventsOfProtectionEquipment_getFromBuffer((PackedStartEventsOfProtectionEquipment) io, self->parameters,
@@ -760,7 +778,8 @@ CS101_ASDU_getElementEx(CS101_ASDU self, InformationObject io, int index)
             retVal  = (InformationObject) PackedOutputCircuitInfo_getFromBuffer((PackedOutputCircuitInfo) io, self->parameters,
                     self->payload, self->payloadSize, self->parameters->sizeOfIOA + (index * elementSize), true);
 
-            InformationObject_setObjectAddress(retVal, InformationObject_ParseObjectAddress(self->parameters, self->payload, 0) + index);
+            if (retVal)
+                InformationObject_setObjectAddress(retVal, InformationObject_ParseObjectAddress(self->parameters, self->payload, 0) + index);
         }
         else
             retVal  = (InformationObject) PackedOutputCircuitInfo_getFromBuffer((PackedOutputCircuitInfo) io, self->parameters,
@@ -776,7 +795,8 @@ CS101_ASDU_getElementEx(CS101_ASDU self, InformationObject io, int index)
             retVal  = (InformationObject) PackedSinglePointWithSCD_getFromBuffer((PackedSinglePointWithSCD) io, self->parameters,
                     self->payload, self->payloadSize, self->parameters->sizeOfIOA + (index * elementSize), true);
 
-            InformationObject_setObjectAddress(retVal, InformationObject_ParseObjectAddress(self->parameters, self->payload, 0) + index);
+            if (retVal)
+                InformationObject_setObjectAddress(retVal, InformationObject_ParseObjectAddress(self->parameters, self->payload, 0) + index);
         }
         else
             retVal  = (InformationObject) PackedSinglePointWithSCD_getFromBuffer((PackedSinglePointWithSCD) io, self->parameters,
@@ -792,7 +812,8 @@ CS101_ASDU_getElementEx(CS101_ASDU self, InformationObject io, int index)
             retVal  = (InformationObject) MeasuredValueNormalizedWithoutQuality_getFromBuffer((MeasuredValueNormalizedWithoutQuality) io, self->parameters,
                     self->payload, self->payloadSize, self->parameters->sizeOfIOA + (index * elementSize), true);
 
-            InformationObject_setObjectAddress(retVal, InformationObject_ParseObjectAddress(self->parameters, self->payload, 0) + index);
+            if (retVal)
+                InformationObject_setObjectAddress(retVal, InformationObject_ParseObjectAddress(self->parameters, self->payload, 0) + index);
         }
         else
             retVal  = (InformationObject) MeasuredValueNormalizedWithoutQuality_getFromBuffer((MeasuredValueNormalizedWithoutQuality) io, self->parameters,
@@ -808,7 +829,8 @@ CS101_ASDU_getElementEx(CS101_ASDU self, InformationObject io, int index)
             retVal  = (InformationObject) SinglePointWithCP56Time2a_getFromBuffer((SinglePointWithCP56Time2a) io, self->parameters,
                     self->payload, self->payloadSize, self->parameters->sizeOfIOA + (index * elementSize), true);
 
-            InformationObject_setObjectAddress(retVal, InformationObject_ParseObjectAddress(self->parameters, self->payload, 0) + index);
+            if (retVal)
+                InformationObject_setObjectAddress(retVal, InformationObject_ParseObjectAddress(self->parameters, self->payload, 0) + index);
         }
         else
             retVal  = (InformationObject) SinglePointWithCP56Time2a_getFromBuffer((SinglePointWithCP56Time2a) io, self->parameters,
@@ -824,7 +846,8 @@ CS101_ASDU_getElementEx(CS101_ASDU self, InformationObject io, int index)
             retVal  = (InformationObject) DoublePointWithCP56Time2a_getFromBuffer((DoublePointWithCP56Time2a) io, self->parameters,
                     self->payload, self->payloadSize, self->parameters->sizeOfIOA + (index * elementSize), true);
 
-            InformationObject_setObjectAddress(retVal, InformationObject_ParseObjectAddress(self->parameters, self->payload, 0) + index);
+            if (retVal)
+                InformationObject_setObjectAddress(retVal, InformationObject_ParseObjectAddress(self->parameters, self->payload, 0) + index);
         }
         else
             retVal  = (InformationObject) DoublePointWithCP56Time2a_getFromBuffer((DoublePointWithCP56Time2a) io, self->parameters,
@@ -840,7 +863,8 @@ CS101_ASDU_getElementEx(CS101_ASDU self, InformationObject io, int index)
             retVal  = (InformationObject) StepPositionWithCP56Time2a_getFromBuffer((StepPositionWithCP56Time2a) io, self->parameters,
                     self->payload, self->payloadSize, self->parameters->sizeOfIOA + (index * elementSize), true);
 
-            InformationObject_setObjectAddress(retVal, InformationObject_ParseObjectAddress(self->parameters, self->payload, 0) + index);
+            if (retVal)
+                InformationObject_setObjectAddress(retVal, InformationObject_ParseObjectAddress(self->parameters, self->payload, 0) + index);
         }
         else
             retVal  = (InformationObject) StepPositionWithCP56Time2a_getFromBuffer((StepPositionWithCP56Time2a) io, self->parameters,
@@ -856,7 +880,8 @@ CS101_ASDU_getElementEx(CS101_ASDU self, InformationObject io, int index)
             retVal  = (InformationObject) Bitstring32WithCP56Time2a_getFromBuffer((Bitstring32WithCP56Time2a) io, self->parameters,
                     self->payload, self->payloadSize, self->parameters->sizeOfIOA + (index * elementSize), true);
 
-            InformationObject_setObjectAddress(retVal, InformationObject_ParseObjectAddress(self->parameters, self->payload, 0) + index);
+            if (retVal)
+                InformationObject_setObjectAddress(retVal, InformationObject_ParseObjectAddress(self->parameters, self->payload, 0) + index);
         }
         else
             retVal  = (InformationObject) Bitstring32WithCP56Time2a_getFromBuffer((Bitstring32WithCP56Time2a) io, self->parameters,
@@ -872,7 +897,8 @@ CS101_ASDU_getElementEx(CS101_ASDU self, InformationObject io, int index)
             retVal  = (InformationObject) MeasuredValueNormalizedWithCP56Time2a_getFromBuffer((MeasuredValueNormalizedWithCP56Time2a) io, self->parameters,
                     self->payload, self->payloadSize, self->parameters->sizeOfIOA + (index * elementSize), true);
 
-            InformationObject_setObjectAddress(retVal, InformationObject_ParseObjectAddress(self->parameters, self->payload, 0) + index);
+            if (retVal)
+                InformationObject_setObjectAddress(retVal, InformationObject_ParseObjectAddress(self->parameters, self->payload, 0) + index);
         }
         else
             retVal  = (InformationObject) MeasuredValueNormalizedWithCP56Time2a_getFromBuffer((MeasuredValueNormalizedWithCP56Time2a) io, self->parameters,
@@ -888,7 +914,8 @@ CS101_ASDU_getElementEx(CS101_ASDU self, InformationObject io, int index)
             retVal  = (InformationObject) MeasuredValueScaledWithCP56Time2a_getFromBuffer((MeasuredValueScaledWithCP56Time2a) io, self->parameters,
                     self->payload, self->payloadSize, self->parameters->sizeOfIOA + (index * elementSize), true);
 
-            InformationObject_setObjectAddress(retVal, InformationObject_ParseObjectAddress(self->parameters, self->payload, 0) + index);
+            if (retVal)
+                InformationObject_setObjectAddress(retVal, InformationObject_ParseObjectAddress(self->parameters, self->payload, 0) + index);
         }
         else
             retVal  = (InformationObject) MeasuredValueScaledWithCP56Time2a_getFromBuffer((MeasuredValueScaledWithCP56Time2a) io, self->parameters,
@@ -904,7 +931,8 @@ CS101_ASDU_getElementEx(CS101_ASDU self, InformationObject io, int index)
             retVal  = (InformationObject) MeasuredValueShortWithCP56Time2a_getFromBuffer((MeasuredValueShortWithCP56Time2a) io, self->parameters,
                     self->payload, self->payloadSize, self->parameters->sizeOfIOA + (index * elementSize), true);
 
-            InformationObject_setObjectAddress(retVal, InformationObject_ParseObjectAddress(self->parameters, self->payload, 0) + index);
+            if (retVal)
+                InformationObject_setObjectAddress(retVal, InformationObject_ParseObjectAddress(self->parameters, self->payload, 0) + index);
         }
         else
             retVal  = (InformationObject) MeasuredValueShortWithCP56Time2a_getFromBuffer((MeasuredValueShortWithCP56Time2a) io, self->parameters,
@@ -920,7 +948,8 @@ CS101_ASDU_getElementEx(CS101_ASDU self, InformationObject io, int index)
             retVal  = (InformationObject) IntegratedTotalsWithCP56Time2a_getFromBuffer((IntegratedTotalsWithCP56Time2a) io, self->parameters,
                     self->payload, self->payloadSize, self->parameters->sizeOfIOA + (index * elementSize), true);
 
-            InformationObject_setObjectAddress(retVal, InformationObject_ParseObjectAddress(self->parameters, self->payload, 0) + index);
+            if (retVal)
+                InformationObject_setObjectAddress(retVal, InformationObject_ParseObjectAddress(self->parameters, self->payload, 0) + index);
         }
         else
             retVal  = (InformationObject) IntegratedTotalsWithCP56Time2a_getFromBuffer((IntegratedTotalsWithCP56Time2a) io, self->parameters,
@@ -936,7 +965,8 @@ CS101_ASDU_getElementEx(CS101_ASDU self, InformationObject io, int index)
             retVal  = (InformationObject) EventOfProtectionEquipmentWithCP56Time2a_getFromBuffer((EventOfProtectionEquipmentWithCP56Time2a) io, self->parameters,
                     self->payload, self->payloadSize, self->parameters->sizeOfIOA + (index * elementSize), true);
 
-            InformationObject_setObjectAddress(retVal, InformationObject_ParseObjectAddress(self->parameters, self->payload, 0) + index);
+            if (retVal)
+                InformationObject_setObjectAddress(retVal, InformationObject_ParseObjectAddress(self->parameters, self->payload, 0) + index);
         }
         else
             retVal  = (InformationObject) EventOfProtectionEquipmentWithCP56Time2a_getFromBuffer((EventOfProtectionEquipmentWithCP56Time2a) io, self->parameters,
@@ -952,7 +982,8 @@ CS101_ASDU_getElementEx(CS101_ASDU self, InformationObject io, int index)
             retVal  = (InformationObject) PackedStartEventsOfProtectionEquipmentWithCP56Time2a_getFromBuffer((PackedStartEventsOfProtectionEquipmentWithCP56Time2a) io, self->parameters,
                     self->payload, self->payloadSize, self->parameters->sizeOfIOA + (index * elementSize), true);
 
-            InformationObject_setObjectAddress(retVal, InformationObject_ParseObjectAddress(self->parameters, self->payload, 0) + index);
+            if (retVal)
+                InformationObject_setObjectAddress(retVal, InformationObject_ParseObjectAddress(self->parameters, self->payload, 0) + index);
         }
         else
             retVal  = (InformationObject) PackedStartEventsOfProtectionEquipmentWithCP56Time2a_getFromBuffer((PackedStartEventsOfProtectionEquipmentWithCP56Time2a) io, self->parameters,
@@ -968,7 +999,8 @@ CS101_ASDU_getElementEx(CS101_ASDU self, InformationObject io, int index)
             retVal  = (InformationObject) PackedOutputCircuitInfoWithCP56Time2a_getFromBuffer((PackedOutputCircuitInfoWithCP56Time2a) io, self->parameters,
                     self->payload, self->payloadSize, self->parameters->sizeOfIOA + (index * elementSize), true);
 
-            InformationObject_setObjectAddress(retVal, InformationObject_ParseObjectAddress(self->parameters, self->payload, 0) + index);
+            if (retVal)
+                InformationObject_setObjectAddress(retVal, InformationObject_ParseObjectAddress(self->parameters, self->payload, 0) + index);
         }
         else
             retVal  = (InformationObject) PackedOutputCircuitInfoWithCP56Time2a_getFromBuffer((PackedOutputCircuitInfoWithCP56Time2a) io, self->parameters,
@@ -1224,7 +1256,8 @@ CS101_ASDU_getElementEx(CS101_ASDU self, InformationObject io, int index)
             retVal  = (InformationObject) FileDirectory_getFromBuffer((FileDirectory) io, self->parameters,
                     self->payload, self->payloadSize, self->parameters->sizeOfIOA + (index * elementSize), true);
 
-            InformationObject_setObjectAddress(retVal, InformationObject_ParseObjectAddress(self->parameters, self->payload, 0) + index);
+            if (retVal)
+                InformationObject_setObjectAddress(retVal, InformationObject_ParseObjectAddress(self->parameters, self->payload, 0) + index);
         }
         else
             retVal  = (InformationObject) FileDirectory_getFromBuffer((FileDirectory) io, self->parameters,
